@@ -323,13 +323,14 @@ class Scheduler(object):
                     self.drop(a, b)
 
     def heal(self):
-        for a in sorted(self.alive):
-            for b in sorted(self.alive):
-                if a < b and self.can_link(a, b):
-                    if not self.view(a, b):
-                        self.connect(a, b)
-                    if not self.view(b, a):
-                        self.connect(b, a)
+        for _pass in (0, 1):      # connecting b->a may first make a notice the loss of its old connection
+            for a in sorted(self.alive):
+                for b in sorted(self.alive):
+                    if a < b and self.can_link(a, b):
+                        if not self.view(a, b):
+                            self.connect(a, b)
+                        if not self.view(b, a):
+                            self.connect(b, a)
 
     def kill(self, n):
         self.rec.do(('kill', n))
@@ -747,6 +748,8 @@ def convergence_problems(rec, sch, cid, fired_log):
     problems = []
     voters = [n for n in sorted(sch.alive) if n < RO_BASE]
     leaders = [n for n in voters if sim.nodes[n]._SyncObj__raftState == 2]
+    if 2 * len(voters) <= len(sch.voters):
+        return []          # no majority of the members is running: the property promises nothing
     if len(leaders) != 1:
         problems.append('after the quiet period there are %d leaders among the running voters %r' % (len(leaders), voters))
     if cid is not None and fired_log.get(cid) != 0:
